@@ -24,8 +24,14 @@ FLOORS = {"trip-count": 4, "length-pair": 4, "run_for.progress": 2, "pool-order"
 
 
 def run(prog, tier):
+    # "adds": what was stored before an advance is still there afterwards, followed by the new rows - the ensemble re-builds its
+    # stores from (old store, new rows); that clause is decided in C03 and shared here
+    from .common import borrow
+    shared = borrow(prog, tier, "C03", {"ensemble-append"}, "earlier-samples-kept",
+                    "an advance appends to the stored sample: the concatenation starts with the store as it was")
     anf.reset()
     obs, info = [], []
+    obs.extend(shared)
     unroll = 3 if tier == "thorough" else 2
 
     # ---------------------------------------------------------------- trip-count: MarkovChain.advance
@@ -291,6 +297,21 @@ def _trip(prog, c, fn, weight, param, what, want=None):
         a, tot = bad[0]
         g = [("" if pol == "true" else "not ") + U(t) for pol, t in a.guards]
         msg = f"{what} on the path {g or '[straight]'} is  {tot}  but must be  {want}"
+    # the request may be any count, 0 included: a group size the request is divided by must be positive whatever the request
+    if not bad and param is not None:
+        rzd = Resolver(fn)
+        for n in ast.walk(fn):
+            dv = None
+            if isinstance(n, ast.BinOp) and isinstance(n.op, (ast.FloorDiv, ast.Mod, ast.Div)):
+                dv = n.right
+            elif isinstance(n, ast.Call) and U(n.func) == "divmod" and len(n.args) == 2:
+                dv = n.args[1]
+            if dv is None:
+                continue
+            t_ = rzd.term(dv, rzd.stmt_of(n))
+            if any(isinstance(x, ast.Name) and x.id == param for x in ast.walk(t_)) and not _lower_bound_ge1(t_):
+                return Ob_trip(c, fn, False, f"`{U(n)[:60]}` divides by `{U(t_)[:60]}`, which is 0 for the admissible request {param} = 0 "
+                                             f"(a request for no samples raises instead of adding none)", forms, what)
     return Ob_trip(c, fn, not bad, msg, forms, what)
 
 
@@ -361,6 +382,13 @@ def _progress(c, fn, step_callee):
     if not strict:
         problems.append(f"the continuation test `{U(w.test)}` still holds when the clock reads exactly the deadline: a run whose budget is "
                         f"used up (or empty) takes another full batch of steps")
+    # the run lasts until the deadline: the clock test is the only way out of the timed loop
+    exits = [n for n in ast.walk(w) if isinstance(n, (ast.Break, ast.Return))
+             and not any(isinstance(l, (ast.For, ast.While)) and l is not w and any(x is n for x in ast.walk(l)) and isinstance(n, ast.Break)
+                         for l in ast.walk(w))]
+    if exits:
+        problems.append(f"the timed loop is left through `{U(exits[0])}` at line {exits[0].lineno}, not only by the clock test: the run can "
+                        f"stop with part of the requested time unused")
     return struct_ob("run_for.progress", qual(c, fn), not problems, "; ".join(problems), rel, w.lineno,
                      detail="lower-bound" if any("lower bound" in p for p in problems) else "",
                      slots={"loop_test": U(w.test)})
